@@ -6,38 +6,50 @@ import (
 	"golang.org/x/tools/go/ssa"
 )
 
-func runC17T3(c *Ctx) {
-	const G = "proxy/gzip"
-	cl := c.method(G, "GzipResponseWriter", "Close")
-	if cl == nil {
-		return
-	}
-	// idempotent? (the field is cleared after Put)
-	clears := false
-	eachInstr(cl, func(i ssa.Instruction) {
-		if st, ok := i.(*ssa.Store); ok {
-			if _, isF := fieldOf(st.Addr, "gzip.GzipResponseWriter", "gzipWriter"); isF && isNilConst(st.Val) {
-				clears = true
-			}
+// runC17T3: the pooled writer goes back to the pool at most once per response. Either the release clears the
+// gzip-writer field (idempotent), or every sync.Pool.Put of the package is reached through exactly one chain of static
+// call sites, one link of which is a defer (the handler's deferred Close) - however many helpers the chain has.
+func runC17T3(c *Ctx, k *c17kit) {
+	nPut := 0
+	eachInstrOf(k.fns, func(f *ssa.Function, i ssa.Instruction) {
+		if !c17isPoolPut(i) {
+			return
 		}
+		nPut++
+		chain := []*ssa.Function{f}
+		nDefer, single := 0, true // (a `defer pool.Put(gz)` inside the release itself is not a link of the chain)
+		cur := f
+		for d := 0; d < 6; d++ {
+			sites := gSites[cur]
+			if len(sites) == 0 {
+				break
+			}
+			if len(sites) > 1 {
+				single = false
+				break
+			}
+			switch sites[0].(type) {
+			case *ssa.Defer:
+				nDefer++
+			case *ssa.Go:
+				single = false
+			}
+			cur = sites[0].Parent()
+			if cur == nil {
+				break
+			}
+			chain = append(chain, cur)
+		}
+		clears := false
+		for _, g := range chain {
+			eachInstr(g, func(j ssa.Instruction) {
+				if st, ok := j.(*ssa.Store); ok && k.isGz(st.Addr) && isNilConst(st.Val) {
+					clears = true
+				}
+			})
+		}
+		c.check("C17.T3", fnKey(f)+"|pooled writer returned at most once", i.Pos(), clears || (single && nDefer == 1),
+			"the release puts the gzip.Writer back into the shared pool and leaves the field set, so it must run exactly once per response: through the single deferred call in the handler. A second call site (e.g. closing early after a failed write) puts the same writer into the pool twice and two later concurrent responses compress into one writer (corrupted bodies) - unless the release clears the field after Put")
 	})
-	// call sites of Close
-	var sites []ssa.Instruction
-	for _, f := range c.AllFns {
-		eachInstr(f, func(i ssa.Instruction) {
-			if cc := callCommon(i); cc != nil && cc.StaticCallee() == cl {
-				sites = append(sites, i)
-			}
-		})
-	}
-	onlyDeferred := true
-	for _, s := range sites {
-		if _, isDefer := s.(*ssa.Defer); !isDefer {
-			onlyDeferred = false
-		}
-	}
-	c.check("C17.T3", "(*gzip.GzipResponseWriter).Close|pooled writer returned at most once", cl.Pos(), clears || (onlyDeferred && len(sites) == 1),
-		"Close puts the gzip.Writer back into the shared pool and leaves the field set, so it must run exactly once per response: the single deferred call in the handler. A second call site (e.g. closing early after a failed write) puts the same writer into the pool twice and two later concurrent responses compress into one writer (corrupted bodies) — unless Close clears the field after Put")
+	c.atLeast("C17.T3", "sync.Pool.Put calls", nPut, 1)
 }
-
-// ---- C19.F5b: nothing classifies the error before the net.Error timeout test ------------------------------------------------
